@@ -182,6 +182,8 @@ pub struct Report {
     pub file_len: u64,
     /// every leaf page in traversal order: (bucket path, page id, depth, keys)
     pub leaves: Vec<LeafInfo>,
+    /// head page of every branch / leaf / free-list run: (page id, type, element count)
+    pub heads: Vec<(u64, u8, u64)>,
 }
 
 #[derive(Clone, Debug, Default)]
@@ -372,6 +374,7 @@ impl<'a> Walker<'a> {
         if h.overflow > 0 {
             shape.overflow_runs += 1;
         }
+        self.rep.heads.push((page, h.ty, h.count));
         shape.depth = shape.depth.max(depth);
         let base = (page * self.ps) as usize;
         let run_end = base + ((h.overflow + 1) * self.ps) as usize;
@@ -676,6 +679,7 @@ pub fn check_from(d: &[u8], pagesize: u64, m: &MetaInfo) -> Report {
                     for p in m.freelist_page..end_page {
                         w.rep.freelist_run.insert(p);
                     }
+                    w.rep.heads.push((m.freelist_page, T_FREELIST, h.count));
                     for i in 0..h.count as usize {
                         let id = rd_u64(d, base + PAYLOAD + 8 * i).unwrap();
                         w.rep.free_entries.push(id);
